@@ -13,6 +13,9 @@ Decided from the source:
              CUR family with recompute_every != 0, the refreshed scores /
              re-orthogonalised residual); every other attribute read by the loop
              is left exactly as the previous fit left it;
+ R-PREFIX    FPS initialised with a list of picks has recorded them as selection steps
+             would (data, targets, indices, counter) - the "initialise with the
+             already selected prefix" clause;
  R-WARMGUARD warm_start on a never-fitted (or empty) selector raises on every path;
  R-LOOPCOUNT the loop runs resolved_request - n_selected_ times after both cold
              and warm initialisation;
@@ -136,6 +139,26 @@ def check(ctx):
                     ctx.ob("NONINTERFERENCE", f"{cfg}.{a} after one step (recorded exception)", bad == ["Xsel"] or not bad, f"{exc}; whole-buffer reads: {bad}", site_s, cfg, nontrivial=False)
                     continue
                 ctx.ob("NONINTERFERENCE", f"{cfg}.{a} after one step does not depend on the requested count or buffer extents", "nts" not in v.labels and not bad, f"labels {sorted(v.labels)}; whole-buffer reads {bad}: {repr(v.term)[:200]}", site_s, cfg)
+        # (a') a search initialised with a list of picks has recorded them as selection steps would
+        if cname == "FPS":
+            for with_y in ((False, True) if axis == 0 else (False,)):
+                cfgp = f"{cfg} initialize=[i0,i1] y={with_y}"
+                I = ctx.interp(order=[("S", "<=", S)], assume=protocols.assume_default)
+                st = State()
+                o = ctx.construct(I, st, cls, **ctor)
+                i0, i1 = index("i0", S), index("i1", S)
+                st.heap[o.obj.id]["_axis"] = vconst(axis)
+                st.heap[o.obj.id]["initialize"] = I.mk_list([i0, i1])
+                yv = y if with_y else vconst(None)
+                nreq = integer("S")
+                ctx.call_method(I, st, o, "_init_greedy_search", X, yv, nreq)
+                I2, s2 = ctx.interp(), State()
+                ref = ctx.call_func(I2, s2, "ref.selection_ref.prefix_init", X, yv, i0, i1, nreq, axis, with_y)
+                ctx.compare("R-PREFIX", f"{cfgp}: X_selected_ holds the data of the initial picks in order", N, ctx.attr(st, o, "X_selected_"), ref.items[0], site_i, cfgp)
+                if with_y:
+                    ctx.compare("R-PREFIX", f"{cfgp}: y_selected_ holds the targets of the initial picks in order", N, ctx.attr(st, o, "y_selected_"), ref.items[1], site_i, cfgp)
+                ctx.compare("R-PREFIX", f"{cfgp}: selected_idx_ holds the initial picks in order", N, ctx.attr(st, o, "selected_idx_"), ref.items[2], site_i, cfgp)
+                ctx.compare("R-PREFIX", f"{cfgp}: the counter equals the number of initial picks", N, ctx.attr(st, o, "n_selected_"), ref.items[3], site_i, cfgp)
         # (c) loop count of the whole fit
         I = ctx.interp(order=[("S", "<=", S)], assume=protocols.assume_default)
         st = State()
